@@ -7,6 +7,9 @@ class SymStr:
     __slots__ = ('cs',)
     def __init__(self, cs): self.cs = list(cs)
     def __len__(self): return len(self.cs)
+    def __iter__(self):
+        for c in self.cs:
+            yield chr(c) if isinstance(c, int) else SymStr([c])
     def __repr__(self): return 'SymStr(%r)' % (self.cs,)
     def is_concrete(self): return all(isinstance(c, int) for c in self.cs)
     def concrete(self): return ''.join(chr(c) for c in self.cs)
@@ -79,6 +82,12 @@ def str_method(frame, obj, name, args):
                 ok = eng.branch(z3.And(c >= 48, c <= 57))
             if not ok: return False
         return len(obj.cs) > 0
+    if name in ('startswith', 'endswith') and len(args) == 1 and isinstance(args[0], str):
+        a = args[0]
+        if len(a) > len(obj.cs):
+            return False
+        part = obj.cs[:len(a)] if name == 'startswith' else obj.cs[len(obj.cs) - len(a):]
+        return eng.truth(eng.eq(SymStr(part), a))
     raise Unsupported('str method %s on symbolic' % name)
 
 # --- Frame patches
